@@ -210,8 +210,13 @@ impl Req {
 // ---------------------------------------------------------------- canonical text
 
 fn ex_bytes(sec: &[u8], e: &gimli::UnwindExpression<usize>) -> String {
+    // the bytes through the public accessor `UnwindExpression::get` …
+    let s = DebugFrame::new(sec, RunTimeEndian::Little);
+    let via_get: Option<Vec<u8>> = e.get::<Rd<'_>, _>(&s).ok().map(|x| x.0.slice().to_vec());
+    // … must be the section bytes [offset, offset + length)
     match sec.get(e.offset..e.offset.wrapping_add(e.length)) {
-        Some(b) => hex(b),
+        Some(b) if via_get.as_deref() == Some(b) => hex(b),
+        Some(b) => format!("!get-differs:{}:{:?}", hex(b), via_get.map(|v| hex(&v))).replace(' ', ""),
         None => format!("!oob{}+{}", e.offset, e.length),
     }
 }
@@ -790,14 +795,65 @@ where
     };
     loop {
         match table.next_row() {
-            Ok(Some(row)) => rows.push(snapshot(row, sec)),
-            Ok(None) => return (rows, Ok(())),
+            Ok(Some(row)) => {
+                let mut snap = snapshot(row, sec);
+                // `contains` is `start <= a < end`
+                for a in [row.start_address().wrapping_sub(1), row.start_address(), row.end_address().wrapping_sub(1), row.end_address()] {
+                    if row.contains(a) != (row.start_address() <= a && a < row.end_address()) {
+                        snap.iter_problem = Some(format!("contains({a}) is wrong for [{}, {})", row.start_address(), row.end_address()));
+                    }
+                }
+                rows.push(snap)
+            }
+            Ok(None) => {
+                // the table is finished: asking again must not produce another row
+                if !matches!(table.next_row(), Ok(None)) {
+                    if let Some(r) = rows.last_mut() {
+                        r.iter_problem = Some("next_row yields again after Ok(None)".into());
+                    }
+                }
+                return (rows, Ok(()));
+            }
             Err(e) => return (rows, Err(e)),
         }
         if rows.len() > cap {
             return (rows, Err(gimli::Error::TooManyIterations));
         }
     }
+}
+
+/// `FrameDescriptionEntry::unwind_info_for_address` must return the first row of the table that
+/// contains the address (or the error the table runs into before, or `NoUnwindInfoForAddress`)
+fn lookup_with<'a, Sec, St>(section: &Sec, bases: &BaseAddresses, fde: &FrameDescriptionEntry<Rd<'a>>, sec: &[u8], rows: &[RowOut], res: &Result<(), gimli::Error>) -> Option<String>
+where
+    Sec: UnwindSection<Rd<'a>>,
+    St: UnwindContextStorage<usize>,
+{
+    let mut probes: Vec<u64> = vec![fde.initial_address().wrapping_sub(1), fde.initial_address()];
+    for r in rows.iter().take(3) {
+        probes.push(r.end.wrapping_sub(1));
+        probes.push(r.end);
+    }
+    if let Some(r) = rows.last() {
+        probes.push(r.start);
+        probes.push(r.end);
+    }
+    for a in probes {
+        let mut ctx: Box<UnwindContext<usize, St>> = Box::new(UnwindContext::new_in());
+        let got = fde.unwind_info_for_address(section, bases, &mut ctx, a).map(|r| snapshot(r, sec).text);
+        let want: Result<String, String> = match rows.iter().find(|r| r.start <= a && a < r.end) {
+            Some(r) => Ok(r.text.clone()),
+            None => Err(match res {
+                Err(e) => rerr(e),
+                Ok(()) => "NoUnwindInfoForAddress".to_string(),
+            }),
+        };
+        let got_s = got.map_err(|e| rerr(&e));
+        if got_s != want {
+            return Some(format!("lookup unwind_info_for_address({a}) = {got_s:?}, rows say {want:?}").replace(' ', "_").replacen('_', " ", 1));
+        }
+    }
+    None
 }
 
 fn rows_storage<'a, Sec>(storage: &str, section: &Sec, bases: &BaseAddresses, fde: &FrameDescriptionEntry<Rd<'a>>, sec: &[u8], cap: usize) -> Option<(Vec<RowOut>, Result<(), gimli::Error>)>
@@ -822,7 +878,7 @@ where
 }
 
 /// the reply and the oracle verdict for one unwind request
-fn unwind_on<'a, Sec>(q: &Req, storage: &str, section: &Sec, secbytes: &'a [u8], fde_off: usize) -> Option<(String, Option<String>)>
+fn unwind_on<'a, Sec>(q: &Req, storage: &str, section: &Sec, secbytes: &'a [u8], fde_off: usize, do_lookup: bool) -> Option<(String, Option<String>)>
 where
     Sec: UnwindSection<Rd<'a>>,
 {
@@ -834,6 +890,18 @@ where
     let cap = q.cie.len() + q.fde.len() + 4;
     let (rows, res) = rows_storage(storage, section, &bases, &fde, secbytes, cap)?;
     let texts: Vec<String> = rows.iter().map(|r| r.text.clone()).collect();
+    // (no lookups when the table itself did not terminate: gimli's lookup loop would not either)
+    let lookup_problem = if do_lookup && !matches!(res, Err(gimli::Error::TooManyIterations)) {
+        match storage {
+            "heap" => lookup_with::<Sec, StoreOnHeap>(section, &bases, &fde, secbytes, &rows, &res),
+            "vec" => lookup_with::<Sec, StVec>(section, &bases, &fde, secbytes, &rows, &res),
+            "a8x8" => lookup_with::<Sec, St<8, 8>>(section, &bases, &fde, secbytes, &rows, &res),
+            "a2x2" => lookup_with::<Sec, St<2, 2>>(section, &bases, &fde, secbytes, &rows, &res),
+            _ => None,
+        }
+    } else {
+        None
+    };
     let reply = match &res {
         Ok(()) => format!("ok {}", list_s(&texts, "|")),
         Err(e) => format!("err {} {}", rerr(e), list_s(&texts, "|")),
@@ -841,7 +909,10 @@ where
     // ---- direct oracle
     let mut verdict: Option<String> = None;
     if let Some(p) = rows.iter().find_map(|r| r.iter_problem.clone()) {
-        verdict = Some(format!("registers-iter {p}"));
+        verdict = Some(format!("row-api {p}"));
+    }
+    if verdict.is_none() {
+        verdict = lookup_problem;
     }
     // contiguity (property text: contiguous, non-decreasing, ends at the FDE's end address)
     if verdict.is_none() {
@@ -854,13 +925,18 @@ where
             }
             prev_end = r.end;
         }
-        if res.is_ok() && rows.last().map(|r| r.end) != Some(fde.end_address()) {
-            verdict = Some(format!("last-end {:?} != fde end {}", rows.last().map(|r| r.end), fde.end_address()));
+        // the FDE's end address, computed here: (initial + length) in the CIE's address size
+        if let Some(mask) = mask_of(q.asz) {
+            let end = fde.initial_address().wrapping_add(fde.len()) & mask;
+            if res.is_ok() && rows.last().map(|r| r.end) != Some(end) {
+                verdict = Some(format!("last-end {:?} != fde end {}", rows.last().map(|r| r.end), end));
+            }
         }
     }
     if verdict.is_none() {
         let (rc, nc) = caps(storage)?;
-        let (orows, oout) = oracle_table(q, fde.initial_address(), fde.end_address(), rc, nc);
+        let end = fde.initial_address().wrapping_add(fde.len()) & mask_of(q.asz).unwrap_or(u64::MAX);
+        let (orows, oout) = oracle_table(q, fde.initial_address(), end, rc, nc);
         let n = orows.len().min(texts.len());
         if orows[..n] != texts[..n] {
             let k = (0..n).find(|&k| orows[k] != texts[k]).unwrap();
@@ -890,18 +966,23 @@ where
 }
 
 fn unwind_req(q: &Req, storage: &str) -> Option<(String, Option<String>)> {
+    // the address lookups re-run the table once per probe: do them on a third of the requests
+    unwind_req_opt(q, storage, (q.cie.len() + q.fde.len()) % 3 == 0)
+}
+
+fn unwind_req_opt(q: &Req, storage: &str, do_lookup: bool) -> Option<(String, Option<String>)> {
     let (sec, fde_off) = q.build();
     if q.eh {
         let mut s = EhFrame::new(&sec, q.endian());
         s.set_address_size(q.asz);
         s.set_vendor(q.vendor());
-        unwind_on(q, storage, &s, &sec, fde_off)
+        unwind_on(q, storage, &s, &sec, fde_off, do_lookup)
     } else {
         let mut s = DebugFrame::new(&sec, q.endian());
         s.set_vendor(q.vendor());
         // the CIE is version 4 and carries its own address size; give the section a different one
         s.set_address_size(if q.asz == 8 { 4 } else { 8 });
-        unwind_on(q, storage, &s, &sec, fde_off)
+        unwind_on(q, storage, &s, &sec, fde_off, do_lookup)
     }
 }
 
@@ -998,7 +1079,7 @@ fn seq_bytes(ix: &[usize]) -> Vec<u8> {
     ix.iter().flat_map(|i| ALPHABET[*i].iter().copied()).collect()
 }
 
-fn blk_case(storage: &str, ix: &[usize], k: usize) -> Option<(String, Option<String>)> {
+fn blk_case(storage: &str, ix: &[usize], k: usize, lookup: bool) -> Option<(String, Option<String>)> {
     let q = Req {
         eh: false,
         big: false,
@@ -1012,13 +1093,13 @@ fn blk_case(storage: &str, ix: &[usize], k: usize) -> Option<(String, Option<Str
         addrs: vec![0, 0x10, 0, 0, 0, 0, 0, 0, 0x08, 0, 0, 0, 0, 0, 0, 0],
         fde: seq_bytes(&ix[k..]),
     };
-    unwind_req(&q, storage)
+    unwind_req_opt(&q, storage, lookup)
 }
 
 fn blk_fold(storage: &str, len: usize, pre: &mut Vec<usize>, h: &mut u64, bad: &mut Option<String>, badc: &mut u64) -> Option<()> {
     if pre.len() >= len {
         for k in 0..=len {
-            let (reply, verdict) = blk_case(storage, pre, k)?;
+            let (reply, verdict) = blk_case(storage, pre, k, false)?;
             *h = digest_step(*h, str_hash(&reply));
             if let Some(v) = verdict {
                 *badc += 1;
@@ -1407,7 +1488,77 @@ fn roweq<St: UnwindContextStorage<usize> + PartialEq>(a: &Req, b: &Req) -> Optio
 
 // ---------------------------------------------------------------- handler
 
+/// set once a `cfi-*` request did not come back in time (see `handle`)
+static CIRCUIT_OPEN: std::sync::atomic::AtomicBool = std::sync::atomic::AtomicBool::new(false);
+
+type Job = (String, Vec<String>);
+struct Helper {
+    tx: std::sync::mpsc::Sender<Job>,
+    rx: std::sync::mpsc::Receiver<Option<String>>,
+}
+static HELPER: std::sync::Mutex<Option<Helper>> = std::sync::Mutex::new(None);
+
+fn start_helper() -> Option<Helper> {
+    let (tx, jobs) = std::sync::mpsc::channel::<Job>();
+    let (replies, rx) = std::sync::mpsc::channel::<Option<String>>();
+    std::thread::Builder::new()
+        .stack_size(4 << 20)
+        .spawn(move || {
+            while let Ok((op, args)) = jobs.recv() {
+                let refs: Vec<&str> = args.iter().map(|s| s.as_str()).collect();
+                let r = std::panic::catch_unwind(|| handle_inner(&op, &refs));
+                let out = match r {
+                    Ok(x) => x,
+                    Err(p) => {
+                        let msg = p.downcast_ref::<&str>().map(|s| s.to_string()).or_else(|| p.downcast_ref::<String>().cloned()).unwrap_or_else(|| "?".into());
+                        Some(format!("panic {}", msg.replace('\n', " ")))
+                    }
+                };
+                if replies.send(out).is_err() {
+                    break;
+                }
+            }
+        })
+        .ok()?;
+    Some(Helper { tx, rx })
+}
+
+/// Every `cfi-*` request runs gimli on a helper thread with a deadline.  A change that makes
+/// `next_row` / `initialize` loop forever would otherwise cost the orchestrator's full per-case
+/// watchdog (and a worker restart) for each of ~10^5 cases: after the first request that misses
+/// its deadline this worker answers `hang` at once for the rest of its life (each such answer is a
+/// reported failure), so the run still ends in minutes.  The stuck helper thread is abandoned.
 pub fn handle(op: &str, a: &[&str]) -> Option<String> {
+    use std::sync::atomic::Ordering;
+    if !matches!(op, "cfi-unwind" | "cfi-decode" | "cfi-blk" | "cfi-seq" | "cfi-corpus" | "cfi-roweq") {
+        return None;
+    }
+    if CIRCUIT_OPEN.load(Ordering::Relaxed) {
+        return Some("hang circuit-open: an earlier cfi request did not return within its deadline".into());
+    }
+    // below the orchestrator's own per-case watchdog (20 s in the quick tier)
+    let deadline = std::time::Duration::from_secs(if op == "cfi-blk" { 16 } else { 12 });
+    let mut guard = match HELPER.lock() {
+        Ok(g) => g,
+        Err(_) => return handle_inner(op, a),
+    };
+    if guard.is_none() {
+        *guard = start_helper();
+    }
+    let Some(h) = guard.as_ref() else { return handle_inner(op, a) };
+    if h.tx.send((op.to_string(), a.iter().map(|s| s.to_string()).collect())).is_err() {
+        return handle_inner(op, a);
+    }
+    match h.rx.recv_timeout(deadline) {
+        Ok(r) => r,
+        Err(_) => {
+            CIRCUIT_OPEN.store(true, Ordering::Relaxed);
+            Some("hang the request did not return within its deadline".into())
+        }
+    }
+}
+
+fn handle_inner(op: &str, a: &[&str]) -> Option<String> {
     let with_oracle = |s: String, o: Option<String>| match o {
         Some(w) => {
             let mut it = w.splitn(2, ' ');
@@ -1469,7 +1620,7 @@ pub fn handle(op: &str, a: &[&str]) -> Option<String> {
             if k > ix.len() {
                 return None;
             }
-            let (r, v) = blk_case(storage, &ix, k)?;
+            let (r, v) = blk_case(storage, &ix, k, true)?;
             Some(with_oracle(r, v))
         }
         _ => None,
